@@ -14,7 +14,7 @@ from cddvc import e1
 from cddvc.report import Run, compare_baseline
 from checks import common, domain, roundtrip as R, rt_matrix as M
 
-TYPES = ["int", "float", "str", "bool", "Optional[int]", "Optional[str]", "Literal['x', 'y']", "List[str]", "Union[int, str]", "dict", domain.LONG_LITERAL, domain.LONG_UNION]
+TYPES = ["int", "float", "str", "bool", "Optional[int]", "Optional[str]", "Literal['x', 'y']", "List[str]", "Union[int, str]", "dict", domain.LONG_LITERAL, domain.LONG_UNION, "Optional[bool]", "Union[bool, str]"]
 
 
 def contract(cell, ir):
@@ -53,6 +53,17 @@ def contract(cell, ir):
 
 def marker_replay(_name):
     """The marker-set lemma's claim on the real emitter / parser: numeric defaults whose repr uses + - . e come back as numbers"""
+    for typ_, dflt in (("Optional[bool]", True), ("Optional[bool]", False), ("Union[bool, str]", False), ("Optional[int]", domain.NONE)):
+        for cell in (("google", True, True), ("rest", True, True), ("numpydoc", True, True)):
+            ir = domain.make_ir(((typ_, dflt, "the {name}"),))
+            try:
+                r = [x for x in contract(cell, ir) if x[0][4] == "typ"]
+            except Exception:
+                r = []
+            if r and "adhoc" in _name:
+                return {"cell": list(cell), "ir": json.loads(json.dumps(ir)), "what": r[0][1][:300]}
+    if "adhoc" in _name:
+        return None
     for dflt in (1e16, -2.5e-07, 1e-05, 3, -3, 2.5, 1.5e+300):
         for cell in (("google", True, True), ("rest", True, True), ("numpydoc", True, True)):
             ir = domain.make_ir((("float" if isinstance(dflt, float) else "int", dflt, "the {name}"),))
